@@ -37,7 +37,7 @@ E(ph, ok, via, k, res, n, lines, doc, code) ==
   [ph |-> ph, ok |-> ok, via |-> via, k |-> k, res |-> res, n |-> n, lines |-> lines, doc |-> doc, code |-> code]
 ArgsEv == {E("args", b, "", "", "", 0, 0, "", 0) : b \in BOOLEAN}
 ValidateEv == {E("validate", b, "", "", "", 0, 0, "", 0) : b \in BOOLEAN}
-LoadEv == {E("load", b, v, "", "", 0, 0, "", 0) : b \in BOOLEAN, v \in {"file", "stdin"}}
+LoadEv == {E("load", b, v, "", "", 0, 0, "", 0) : b \in BOOLEAN, v \in Deliveries}
 WorkEv == {E("work", TRUE, "", k, "", n, 0, "", 0) : k \in GetKinds \cup {"same", "differs", "needindex", "results", "badexpr"}, n \in 0..MaxN}
           \cup {E("work", TRUE, "", k, r, n, 0, "", 0) : k \in {"gather", "check", "apply", "merge"},
                   r \in {"ok", "unmatched", "yperr", "nodoc", "mismatch", "mergeerr"}, n \in {0}}
@@ -82,13 +82,25 @@ InvRunHonest ==
     /\ st.tool = "get" => (st.code = 0 /\ LastWork.k = "matched" => st.lines = LastWork.n /\ st.lines >= 1)
     /\ st.tool = "diff" => ((st.code = 0) <=> (fine /\ Len(Evs("work")) = 1 /\ LastWork.k = "same"))
     /\ st.tool = "paths" => ((st.code = 0) <=> (fine /\ \A i \in 1..Len(Evs("work")) : Evs("work")[i].k # "badexpr"))
+    /\ ~st.crash
     /\ st.tool = "merge" => ((st.code = 0) <=> (fine /\ \A i \in 1..Len(Evs("work")) : Evs("work")[i].res = "ok"))
     /\ st.tool = "merge" => ((st.code = 0) <=> (st.doc = "written"))
     /\ st.tool = "set" => ((st.code = 0) <=> (fine /\ Len(Evs("work")) >= 1 /\ LastWork.k = "apply" /\ LastWork.res = "ok"))
     /\ st.tool = "set" => ((st.code = 0) <=> (st.doc = "written"))
-\* file and stdin delivery: the twin run is a run, and it ends where this one does
+\* the three deliveries: however else the tool lets the same documents arrive (every assignment of file / "-" /
+\* implicit STDIN to the sources that is itself a run), the run ends in the same state; delivering every
+\* document as a file is always possible; and where the tool reads a waiting STDIN document (every tool but
+\* yaml-diff), the last source of a finished run may arrive that way - and the only source by any of the three
+Vias(n) == [1..n -> Deliveries]
 InvDeliveryIndependent ==
-  LET t == Run(st.tool, st.o, Twin(hist)) IN t.ok /\ t.s = st
+  st.pc \in {"Done", "Exit"} =>
+    LET n == NLoads(hist) IN
+    /\ \A vs \in Vias(n) : LET t == Run(st.tool, st.o, Redeliver(hist, vs)) IN t.ok => Core(t.s) = Core(st)
+    /\ Run(st.tool, st.o, AllFile(hist)).ok
+    /\ (n = 1 /\ st.tool # "diff" /\ ~st.badexpr) => \A v \in Deliveries : Run(st.tool, st.o, Redeliver(hist, [j \in 1..1 |-> v])).ok
+    /\ (n >= 1 /\ st.tool # "diff" /\ st.badat \in {0, n} /\ (st.badexpr => st.tool # "paths")) =>
+          Run(st.tool, st.o, Redeliver(hist, [j \in 1..n |-> IF j = n THEN "implicit" ELSE "file"])).ok
+    /\ st.tool = "diff" => \A vs \in Vias(n) : (\E j \in 1..n : vs[j] = "implicit") => ~Run(st.tool, st.o, Redeliver(hist, vs)).ok
 \* ... and the run recorded in hist is the one that led here (Step is a function)
 InvHistIsRun == LET t == Run(st.tool, st.o, hist) IN t.ok /\ t.s = st
 \* the exit code is determined by the state
@@ -112,7 +124,7 @@ InvDoneIsFinal == st.pc = "Done" => \A e \in Events : Step(st, e).pc = "REJECT"
 (* ---- the table for the harness ---- *)
 \* (one row per finished run with file deliveries; the twin runs end in the same state, see above)
 EmitDone ==
-  (st.pc = "Done" /\ \A i \in 1..Len(hist) : hist[i].via # "stdin") =>
+  (st.pc = "Done" /\ \A i \in 1..Len(hist) : hist[i].via \notin {"dash", "implicit"}) =>
     CSVWrite("%1$s", <<ToJson([tool |-> st.tool, must |-> st.o.must, mode |-> st.o.mode, noise |-> st.o.noise,
                               argsok |-> st.argsok, valid |-> st.valid, nload |-> st.nload, badat |-> st.badat,
                               k |-> st.lib.k, n |-> st.lib.n, badexpr |-> st.badexpr,
